@@ -79,7 +79,9 @@ def main(argv):
         if replay_path:
             rep = json.load(open(replay_path))
             if rep.get("case") is None:
-                print(f"replay names a broken obligation, no input to re-run: {json.dumps(rep.get('broken'))[:500]}")
+                aux_names = sorted({a.get("point", "?") for a in (rep.get("aux_mismatch") or [])})
+                print(f"replay names a broken obligation / correspondence point, no failing input to re-run: "
+                      f"obligations {json.dumps(rep.get('broken'))[:300]}; auxiliary points {json.dumps(aux_names[:8])[:600]}")
             else:
                 ctx.env_name = rep.get("env")
                 with common.environment(rep.get("env")):
